@@ -175,6 +175,11 @@ where
         while let Ok((item, remainder)) =
             <T as ZvtSerializerImpl<L, E, TE>>::deserialize_tagged(bytes, tag.clone())
         {
+            // An item which consumes nothing (e.x. an untagged string on an
+            // empty input) would repeat forever.
+            if remainder.len() == bytes.len() {
+                break;
+            }
             items.push(item);
             bytes = remainder;
         }
